@@ -135,6 +135,8 @@ pub enum RealFn {
     InfPart,
     /// Sphere minus 5: negative values occur.
     NegSphere,
+    /// `+inf` everywhere: every solution is infeasible (penalised), everything ties.
+    AllInf,
 }
 
 pub const REAL_FNS: [RealFn; 6] = [
@@ -177,6 +179,7 @@ impl Real {
                     + x.iter().map(|v| v * v - 10.0 * (2.0 * std::f64::consts::PI * v).cos()).sum::<f64>()
             }
             RealFn::Plateau => x.iter().map(|v| (v.abs() * 2.0).floor()).sum::<f64>(),
+            RealFn::AllInf => f64::INFINITY,
             RealFn::InfPart => {
                 let mid = self.domains.first().map(|d| (d.0 + d.1) / 2.0).unwrap_or(0.0);
                 if x.first().map(|v| *v > mid + 0.5 * (self.domains[0].1 - mid)).unwrap_or(false) {
@@ -224,6 +227,7 @@ impl KnownOptimumProblem for Real {
     fn known_optimum(&self) -> SingleObjective {
         so(match self.f {
             RealFn::NegSphere => -5.0,
+            RealFn::AllInf => f64::INFINITY,
             _ => 0.0,
         })
     }
